@@ -297,7 +297,7 @@ class ASL_API Var
 	operator int() const;
 	operator unsigned() const;
 	operator Long() const;
-	operator ULong() const { return (ULong)Long(*this); }
+	operator ULong() const { return ((_type == NUMBER || _type == FLOAT) && _d >= 9223372036854775808.0) ? (ULong)_d : (ULong)Long(*this); }
 	operator String() const;
 	template<class T>
 	operator Array<T>() const;
